@@ -102,6 +102,7 @@ dtz_enrichz(struct dt_dt_s d, zif_t zone)
 	dt_ssexy_t d_unix;
 	dt_ssexy_t d_locl;
 	int32_t zdiff;
+	unsigned int lsec = 0U;
 
 	if (dt_sandwich_only_d_p(d)) {
 		/* nah, we need a date/time for this */
@@ -111,9 +112,20 @@ dtz_enrichz(struct dt_dt_s d, zif_t zone)
 		return d;
 	}
 
+	/* an inserted second (23:59:60) carries the offset in force before
+	 * it, not the one of the midnight its second count runs into */
+	if (UNLIKELY(dt_sandwich_p(d) && d.t.hms.s >= 60U)) {
+		lsec = d.t.hms.s - 59U;
+		d.t.hms.s = 59U;
+	}
+
 	/* convert date/time part to unix stamp */
 	d_unix = dt_to_unix_epoch(d);
 	d_locl = zif_local_time(zone, d_unix);
+	if (lsec) {
+		/* hand the inserted second back */
+		d_locl += lsec;
+	}
 	if (LIKELY((zdiff = d_locl - d_unix))) {
 		/* let dt_dtadd() do the magic */
 #if defined HAVE_ANON_STRUCTS_INIT
